@@ -30,7 +30,19 @@ def dup_program(rnd, depth=2):
     def cp():
         return json.loads(json.dumps(base))
     shape = rnd.choice(["siblings", "seq", "nested", "twice", "mixed", "map", "catch_all", "cousins", "generated",
-                        "limited", "limited"])
+                        "limited", "limited", "rejected"])
+    if shape == "rejected":
+        # jobs that demand resources but are rejected before reaching an executor (unknown executor name), caught
+        # so that the execution goes on and other jobs compete for the same resource afterwards
+        lim = rnd.choice([["r1"], {"r1": 1}])
+        bad = lambda v: ["catch", ["call", "inc", [["val", v]], {}, {"limits": lim, "executor": "no_such_executor"}],  # noqa: E731
+                         [[["Exception"], "recov_const"]]]
+        good = lambda v: ["call", rnd.choice(["inc", "neg", "ident"]), [["val", v]], {}, {"limits": lim}]  # noqa: E731
+        first = [bad(x), bad(x + 1)][: rnd.randint(1, 2)]
+        later = [good(x + i) for i in range(rnd.randint(2, 4))]
+        if rnd.random() < 0.5:
+            return ["seq", first + [["cont", "list", later]]], shape
+        return ["cont", "list", first + later], shape
     if shape == "limited":
         # several jobs competing for one scarce resource, with true job-level duplicates (same call made from
         # beneath different parents, each with the same demand)
